@@ -558,7 +558,7 @@ type variant struct {
 	// wire mode (wire.go): vals / tvals are decoder output; the reference tallies on these plain-data views instead
 	ovals, otvals *types.ValidatorSet
 	wireVP        *tmproto.ValidatorSet // the forged message vals was decoded from
-	tl      tmmath.Fraction
+	tl            tmmath.Fraction
 }
 
 func cpb(b []byte) []byte {
